@@ -270,6 +270,21 @@ def gen_tree(rng, k):
     tree = {"id": k, "kind": kind, "res": res, "tokens": toks, "fixed_sat": fixed_sat, "coverage": coverage,
             "has_sat": has_sat, "files": files, "centre": tc, "P": P, "ends": ends}
     tree["queries"] = gen_queries(rng, tree, K)
+    # history: files that exist when the FileSet object first looks at the directory and are gone afterwards (moved away,
+    # deleted); the object must answer for the files that exist NOW.  The vanished files are not part of tree["files"]
+    # (the population the checker judges); each gets a query at its own start time (the exact-name short cut)
+    tree["vanished"] = []
+    if len(files) >= 2 and rng.random() < 0.3:
+        for _ in range(rng.choice([1, 1, 2])):
+            if len(tree["files"]) < 2:
+                break
+            v = tree["files"].pop(rng.randrange(len(tree["files"])))
+            tree["vanished"].append(v)
+            tree["queries"].append({"label": "vanished-exact", "t": v["t0"], "filters": None, "xnames": [], "xtimes": [],
+                                    "as_str": False})
+        keep = {f["name"] for f in tree["files"]}
+        for q in tree["queries"]:
+            q["xnames"] = [n for n in q["xnames"] if n in keep]
     return tree
 
 
@@ -427,6 +442,22 @@ def run_impl(tree):
             t = of_us(q["t"])
             targ = t.strftime("%Y-%m-%d %H:%M:%S") if q["as_str"] else t
             flt = q["filters"]
+            gone = tree.get("vanished") or []
+            if gone:
+                # the object sees the directory with the files that will vanish, looks at every file and asks for each
+                # vanishing file by its own time; then those files are removed and the query proper is put to the same object
+                paths = [Path(root + v["name"][len(ROOT):]) for v in gone]
+                for pth in paths:
+                    pth.parent.mkdir(parents=True, exist_ok=True)
+                    pth.touch()
+                try:
+                    list(fs.find(no_files_error=False))
+                    for v in gone:
+                        fs.find_closest(of_us(v["t0"]))
+                except Exception:  # noqa
+                    pass
+                for pth in paths:
+                    pth.unlink()
             a = _canon(root, lambda: fs.find_closest(targ, filters=flt))
             fs2 = make_fileset(root, tree, q)
             b = _canon(root, (lambda: fs2[targ]) if flt is None else (lambda: fs2[targ, flt]))
@@ -522,6 +553,7 @@ def single_case(rec):
     tree, q = rec["tree"], rec["tree"]["queries"][rec["qi"]]
     t = {k: tree[k] for k in ("kind", "res", "tokens", "fixed_sat", "coverage", "has_sat", "files", "centre", "P", "ends")}
     t["template"] = template_string(tree["tokens"])
+    t["vanished"] = tree.get("vanished", [])
     t["queries"] = [q]
     t["id"] = tree.get("id", 0)
     return {"tree": t, "mode": rec["mode"], "timestamp": str(of_us(q["t"]))}
